@@ -57,7 +57,7 @@ def chunking(spec, rng: random.Random) -> str:
         # generated contents are split on the generator's own offsets: G:seed:len is position
         # dependent, so a split uses explicit hex for small pieces only; keep large ones whole or
         # in two literal-free parts is impossible -> whole
-        return f"G:{seed}:{ln}"
+        return big_chunking(seed, ln, rng)
     data = spec[1]
     if not data:
         r = rng.random()
@@ -72,11 +72,30 @@ def chunking(spec, rng: random.Random) -> str:
     return ",".join(hexs(p) for p in parts)
 
 
-def content_bytes(spec) -> bytes:
+def content_bytes(spec, off=0) -> bytes:
     if spec[0] == "G":
-        _, seed, ln = spec
-        return bytes(((seed * 131 + i * 31 + (i // 251) * 17) & 255) for i in range(ln))
+        _, seed, ln = spec[:3]
+        return bytes(((seed * 131 + i * 31 + (i // 251) * 17) & 255) for i in range(off, off + ln))
     return spec[1]
+
+
+def big_chunking(seed, ln, rng):
+    """split a generated content of length ln into chunks (offset syntax G:seed:len:off)"""
+    r = rng.random()
+    if r < 0.3 or ln == 0:
+        return f"G:{seed}:{ln}"
+    if r < 0.55:
+        step = rng.choice([4096, 8192, 65536, 100000])
+    elif r < 0.8:
+        step = rng.choice([1000, 8191, 8193, 30000])
+    else:
+        cut = rng.randrange(ln + 1)
+        return ",".join(x for x in [f"G:{seed}:{cut}:0" if cut else "-", f"G:{seed}:{ln - cut}:{cut}" if ln - cut else "-"])
+    parts, off = [], 0
+    while off < ln:
+        l = min(step, ln - off)
+        parts.append(f"G:{seed}:{l}:{off}"); off += l
+    return ",".join(parts)
 
 
 def sort_key(kt, b: bytes):
@@ -341,9 +360,9 @@ def range_cases(rng: random.Random, thorough: bool):
                 lines.append(f"range 6b {a} {b}")
         lines += ["range 6e6f 0 1", "close", "end"]
         cases.append("\n".join(lines) + "\n"); i += 1
-    for L in [8191, 8192, 8193] + ([70000] if thorough else []):
+    for L in [8191, 8192, 8193, 65537, 140000] + ([70000, 262145] if thorough else []):
         lines = [f"case r{i}", "cfg kt=bytes n=100 sync=1", "open", f"put 6b G:{L % 200}:{L}", "size 6b", "reader 6b"]
-        bnds = [0, 1, 8190, 8191, 8192, 8193, L - 1, L, L + 1] + big
+        bnds = sorted(set([0, 1, 8190, 8191, 8192, 8193, L - 1, L, L + 1] + [x for x in (65535, 65536, 65537, 131072, 131073) if x <= L + 1])) + big
         for a in bnds:
             for b in bnds:
                 lines.append(f"range 6b {a} {b}")
@@ -374,3 +393,42 @@ def damage_case(name, rng: random.Random, length=5):
             lines.append(f"put {k} {chunking(rng.choice(contents), rng)}")
     lines += ["close", "end"]
     return "\n".join(lines) + "\n"
+
+
+
+def settings_case(name, rng: random.Random, pre=0):
+    """create with n, some history, close; rejected opens (other n, other stored version) with the
+    directory observed before and after; then a correct open and read-back"""
+    kt = rng.choice(["bytes", "string", "u32"])
+    n = rng.choice([1, 2, 3, 7, 100])
+    keys = key_pool(kt, rng, 3)
+    contents = content_pool(rng, 3, 0.0)
+    lines = [f"case {name}", f"cfg kt={kt} n={n} sync=1 pre={pre}", "open"]
+    for _ in range(rng.choice([2, 3, 5])):
+        k = hexs(rng.choice(keys))
+        lines.append(f"put {k} {chunking(rng.choice(contents), rng)}" if rng.random() < 0.75 else f"remove {k}")
+    gets = [f"get {hexs(k)}" for k in keys]
+    lines += ["close", "obs"]
+    for _ in range(rng.choice([1, 2])):
+        other = rng.choice([x for x in [1, 2, 3, 4, 7, 100, 10000, 2**63] if x != n])
+        lines += [f"open n={other}" + (" gate" if rng.random() < 0.5 else ""), "obs"]
+    lines += ["open"] + gets + ["close", "obs"]
+    v = rng.choice([0, 1, 3, 5, 4294967295])
+    lines += [f"setsettings {v} {pre} {n}", "obs", "open" + (" gate" if rng.random() < 0.5 else ""), "obs", f"setsettings 4 {pre} {n}", "open"] + gets + ["iter", "close", "end"]
+    return "\n".join(lines) + "\n"
+
+
+
+def sizes_cases(rng: random.Random, thorough: bool):
+    """contents whose length sits on power-of-two boundaries, each under several chunkings (C18)"""
+    ks = range(10, 18) if not thorough else range(10, 21)
+    sizes = sorted({s for k in ks for s in (2**k - 1, 2**k, 2**k + 1)} | {0, 1, 100, 8148, 8149, 70000})
+    cases = []
+    for i, L in enumerate(sizes):
+        seed = 3 + i
+        lines = [f"case z{i}", "cfg kt=bytes n=100 sync=1", "open"]
+        for j in range(3 if L > 100000 else 4):
+            lines.append(f"put {bytes([97 + j]).hex()} {big_chunking(seed, L, rng) if j else 'G:%d:%d' % (seed, L)}")
+        lines += ["iter", "blobs", "obs", "get 61", "close", "end"]
+        cases.append("\n".join(lines) + "\n")
+    return cases
